@@ -391,6 +391,28 @@ func c09CheckFormat(c *Ctx, src []byte, path, origin string, strictComments bool
 			}
 		}
 		if key == "C09:comment-lost" {
+			// every lost comment stands directly before a map / struct entry whose key occurs again later
+			// (the later entry overwrites the earlier one, and the comment goes with it)
+			before := map[string]bool{}
+			for _, m := range c09EntryAfterCommentRe.FindAllSubmatchIndex(src, -1) {
+				k := string(src[m[4]:m[5]])
+				if bytes.Contains(src[m[1]:], []byte(k)) {
+					for _, l := range strings.Split(string(src[m[2]:m[3]]), "\n") {
+						if t := strings.TrimSpace(l); t != "" {
+							before[t] = true
+						}
+					}
+				}
+			}
+			all := len(before) > 0
+			for _, x := range lost {
+				all = all && before[strings.TrimSpace(x)]
+			}
+			if all {
+				key = "C09:comment-lost:before-overwritten-map-entry"
+			}
+		}
+		if key == "C09:comment-lost" {
 			// every lost comment stands directly before a map key whose string literal spans lines
 			before := map[string]bool{}
 			for _, m := range c09MultilineKeyRe.FindAllSubmatch(src, -1) {
@@ -595,6 +617,8 @@ func c09BindListHasComments(a *syntax.Ast) bool {
 	}
 	return false
 }
+
+var c09EntryAfterCommentRe = regexp.MustCompile(`((?:#[^\n]*\n\s*)+)("(?:[^"\\\n]|\\.)*"|[A-Za-z_]\w*)\s*:`)
 
 var c09MultilineKeyRe = regexp.MustCompile(`((?:#[^\n]*\n\s*)+)"(?:[^"\\\n]|\\.)*\n`)
 
